@@ -38,6 +38,7 @@ import PV.Driver.CCodeProgOps
 import PV.Driver.MemoArgsOps
 import PV.Driver.RationalOps
 import PV.Driver.SymFftOps
+import PV.Driver.ForeignOps
 /-
   Driver operations: one request S-expression in, one reply S-expression out.
 -/
@@ -248,6 +249,7 @@ def handlers : List (Sexp → Option Sexp) :=
    , handleMemoArgs
    , handleRational
    , handleSymFft
+   , handleForeignReg
    -- HANDLERS
   ]
 
